@@ -7,7 +7,11 @@ from harness import gfi_run, gfi, core, bgfi
 if __name__ == "__main__":
     a, n = int(sys.argv[1]), int(sys.argv[2])
     oracles = sys.argv[3:]
-    cases = [gfi_run.make_case(s, depth=(2 if s % 3 else 3)) for s in range(a, a + n)]
+    import os
+    if os.environ.get("ROOTS"):        # ROOTS=vmap,axis1 : n cases of each named root flavour
+        cases = [gfi_run.make_case(a + 100 * ri + j, depth=2, flavour="root:" + r) for ri, r in enumerate(os.environ["ROOTS"].split(",")) for j in range(n)]
+    else:
+        cases = [gfi_run.make_case(s, depth=(2 if s % 3 else 3)) for s in range(a, a + n)]
     outs = gfi_run.run_cases(cases, procs=12)
     kept = [i for i, o in enumerate(outs) if "skip" not in o]
     terms = [gfi_run.c_case(cases[i], outs[i]) for i in kept]
